@@ -11,8 +11,13 @@ WaitClauses(r) ==
   \cup If(~r.stateBlocked /\ ~r.stateErrSeen, "C07_State_reports_the_error_of_an_aborted_attempt")
   \cup If(~r.headReached, "C07_next_learned_head_resumes_from_the_store_head_and_completes")
   \cup If(~r.waitReturned, "C07_SyncWait_returns")
+TimeoutClauses(r) ==
+       If(r.second # r.want, "C07_head_request_that_timed_out_only_delays_learning_the_head")
+  \cup If(r.second # r.want, "C19_stale_head_triggers_a_head_request_after_an_earlier_one_timed_out")
+  \cup If(r.calls2 # 1, "C19_stale_head_triggers_exactly_one_request_verified_against_it")
 Clauses(r) ==
   IF r.op = "syncWaitFailure" THEN WaitClauses(r) ELSE
+  IF r.op = "headTimeout" THEN TimeoutClauses(r) ELSE
        If(r.op = "stalePending" /\ r.via = "gossip" /\ r.siblingH <= r.storeHead /\ r.siblingRes = "nil",
           "C03_header_of_an_already_stored_height_is_refused_with_an_error")
   \cup If(r.sibStored, "C03_refused_header_never_stored")
